@@ -185,6 +185,34 @@ def c14_extra(ROOT, tier, seed, sh, WORK):
     return out
 
 
+def c18_extra(ROOT, tier, seed, sh, WORK):
+    """Generic API against its documented ID-based equivalents on twin worlds, all arities."""
+    import os, re, subprocess
+    out = {'violations': []}
+    sh("cd generic_harness && cp /repo/go.sum . 2>/dev/null; go build -o generic_harness .", timeout=900)
+    n = 20 if tier == 'quick' else 400
+    G = os.path.join(ROOT, 'generic_harness', 'generic_harness')
+    p = subprocess.run([G, '-seed', str(seed % 100000), '-n', str(n)], capture_output=True, text=True, timeout=3000)
+    m = re.search(r'SUMMARY cases=(\d+) fails=(\d+) arities=(\S+)', p.stdout)
+    if not m:
+        rp = os.path.join(ROOT, 'replays', 'C18-harness.txt')
+        open(rp, 'w').write(p.stdout[-3000:] + p.stderr[-3000:])
+        out['violations'].append({'replay': rp, 'cmd': 'generic', 'classes': ['generic'], 'chk': 'harness produced no summary'})
+        return out
+    kinds = {}
+    for l in p.stdout.splitlines():
+        if l.startswith('FAIL '):
+            key = re.sub(r'arity=\d+', 'arity=N', l)[:90]
+            kinds.setdefault(key, []).append(l)
+    for key, lines in kinds.items():
+        rp = os.path.join(ROOT, 'replays', 'C18-' + re.sub(r'[^A-Za-z0-9]+', '_', key)[:60] + '.txt')
+        open(rp, 'w').write(f"# generic_harness -seed {seed % 100000} -n {n}\n" + "\n".join(lines[:40]) + "\n")
+        out['violations'].append({'replay': rp, 'cmd': 'generic', 'classes': ['generic'], 'chk': lines[0][:300]})
+    out['generic_cases'] = int(m.group(1))
+    out['generic_arities'] = m.group(3)
+    return out
+
+
 PROPS = {
     'C01': {
         'budget': _merge(_p('core', 220, 4000), _p('mixed', 80, 2000)),
@@ -319,6 +347,13 @@ PROPS = {
         'chk': [r'dump|load|JSON'],
         'own_ops': {'DUMP', 'LOAD'},
         'rule': "seeded histories (profile dump): dump, load into a fresh or reset twin world, shared continuation",
+    },
+    'C18': {
+        'budget': _merge(_p('mixed', 40, 400)),
+        'projection': [],
+        'own_ops': {'QSCAN', 'RM', 'XCHG', 'NEW'},
+        'extra': c18_extra,
+        'rule': "generic_harness: for every arity 0-12, twin worlds driven through MapN/FilterN/QueryN/Map/Exchange/Resource and through the documented ID-based equivalents; handles, counts, events, full dumps, pointer identity of every Get position, builder-call sequences before and between queries, registered or not",
     },
     'C19': {
         'budget': _merge(_p('mixed', 40, 400)),
